@@ -34,7 +34,7 @@ TRUSTED = [
     "precisions above 7 together with values whose pre-scaled integer reaches 10^15 are outside the model (outcome FInexact); "
     "the table printer uses the default precision only",
 ]
-CONSTS_USED = ["unit_picos_table", "unit_suffix_table", "fmt_default_sig_figs", "fmt_pico_as_nano_above",
+CONSTS_USED = ["suffix_bytes_decimal", "suffix_bytes_binary", "suffix_chars", "suffix_cycles", "suffix_items", "unit_picos_table", "unit_suffix_table", "fmt_default_sig_figs", "fmt_pico_as_nano_above",
                "scale_starts_decimal", "scale_starts_binary"]
 GENERATED_OBLIGATIONS = [
     "C18_unit_table : unit_picos_table = map fst (tl spec_units)",
